@@ -298,9 +298,12 @@ Proof.
                                   if mx <? val then AtonFail else AtonOk (parts ++ be_bytes (4 - n) val)%list) = AtonOk bs ->
                             List.length bs = 4%nat /\ byte_list bs).
   { intros tr Et. destruct (negb tr); [discriminate|]. cbv zeta in Et.
-    match type of Et with (if ?c then _ else _) = _ => destruct c end; [discriminate|]. inversion Et; subst bs.
-    destruct (be_bytes_shape (4 - List.length parts) val Hnn) as [Lb Bb].
-    split; [rewrite app_length, Lb; lia | apply Forall_app; split; assumption]. }
+    remember (List.length parts) as n eqn:En.
+    assert (Hn4 : (n <= 3)%nat) by lia.
+    match type of Et with (if ?c then _ else _) = _ => destruct c end; [discriminate|]. injection Et as Eb. rewrite <- Eb.
+    destruct n as [|[|[|[|n']]]]; try lia;
+      (match goal with |- context [be_bytes ?k val] => destruct (be_bytes_shape k val Hnn) as [Lb Bb] end;
+       split; [rewrite app_length, Lb, <- En; lia | apply Forall_app; split; assumption]). }
   destruct rest as [|d rest'].
   - apply (Hend true). exact E.
   - destruct (N.eq_dec d 46) as [->|Hd].
@@ -323,4 +326,83 @@ Proof.
   inversion Hb as [|x0 l0 B0 Hb1]; subst. inversion Hb1 as [|x1 l1 B1 Hb2]; subst.
   inversion Hb2 as [|x2 l2 B2 Hb3]; subst. inversion Hb3 as [|x3 l3 B3 _]; subst.
   exists b0, b1, b2, b3. auto.
+Qed.
+
+(* ------------------------------------------------------------------ *)
+(* the network an IPv4 CIDR string denotes, and its preservation       *)
+
+(* (address as a 32-bit number with the host bits cleared, prefix length); the platform's
+   inet_aton and int() as restated in the model decide what is an address and a prefix *)
+Definition ipv4_net_of (s : ustring) : option (N * N) :=
+  let ip := match find_cp 47%N s with Some (a, _) => a | None => s end in
+  let suffix := match find_cp 47%N s with Some (_, t) => Some t | None => None end in
+  match inet_aton ip with
+  | AtonOk bs =>
+    match suffix with
+    | None => Some (addr4 bs, 32%N)
+    | Some t =>
+      match py_int t with
+      | Some n => if (0 <=? n) && (n <=? 32)
+                  then Some ((addr4 bs / 2 ^ Z.to_N (32 - n) * 2 ^ Z.to_N (32 - n))%N, Z.to_N n)
+                  else None
+      | None => None
+      end
+    end
+  | _ => None
+  end.
+
+Lemma ipv4_net_plain : forall b0 b1 b2 b3,
+    (b0 < 256)%N -> (b1 < 256)%N -> (b2 < 256)%N -> (b3 < 256)%N ->
+    ipv4_net_of (inet_ntoa [b0; b1; b2; b3]) = Some (addr4 [b0; b1; b2; b3], 32%N).
+Proof.
+  intros b0 b1 b2 b3 H0 H1 H2 H3. unfold ipv4_net_of.
+  rewrite (find_cp_none 47%N _ (ntoa4_no 47%N b0 b1 b2 b3 eq_refl ltac:(discriminate) H0 H1 H2 H3)).
+  rewrite (aton_ntoa b0 b1 b2 b3 H0 H1 H2 H3). reflexivity.
+Qed.
+
+(* the canonical text denotes the same network as the original text *)
+Theorem ip4_canon_preserves_net : forall s s', ip_canon false s = CanonTo s' -> ipv4_net_of s' = ipv4_net_of s.
+Proof.
+  intros s s' E. unfold ip_canon in E. unfold ipv4_net_of at 2.
+  destruct (find_cp 47%N s) as [[ip suffix]|] eqn:Ef.
+  - destruct (inet_aton ip) as [| |bs] eqn:Ea; try discriminate E.
+    destruct (inet_aton_shape ip bs Ea) as [b0 [b1 [b2 [b3 [-> [H0 [H1 [H2 H3]]]]]]]].
+    destruct (py_int suffix) as [n|] eqn:Ep; [|discriminate E].
+    destruct ((n <? 0) || (32 <? n)) eqn:Er; [discriminate E|].
+    apply orb_false_iff in Er. destruct Er as [Er1 Er2]. apply Z.ltb_ge in Er1. apply Z.ltb_ge in Er2.
+    replace ((0 <=? n) && (n <=? 32)) with true
+      by (symmetry; apply andb_true_iff; split; apply Z.leb_le; lia).
+    destruct (n =? 32) eqn:E32.
+    + apply Z.eqb_eq in E32. subst n. inversion E; subst s'.
+      rewrite (ipv4_net_plain b0 b1 b2 b3 H0 H1 H2 H3). simpl Z.to_N. f_equal. f_equal.
+      change (2 ^ 0)%N with 1%N. rewrite N.div_1_r, N.mul_1_r. reflexivity.
+    + apply Z.eqb_neq in E32. inversion E; subst s'. clear E.
+      destruct (mask_bytes_shape n b0 b1 b2 b3 ltac:(lia) H0 H1 H2 H3) as [c0 [c1 [c2 [c3 [Em [C0 [C1 [C2 C3]]]]]]]].
+      pose proof (mask_addr n b0 b1 b2 b3 ltac:(lia) H0 H1 H2 H3) as Ma. rewrite Em in *.
+      unfold ipv4_net_of. unfold slash.
+      rewrite (find_cp_app 47%N _ (ustr_of_Z n) (ntoa4_no 47%N c0 c1 c2 c3 eq_refl ltac:(discriminate) C0 C1 C2 C3)).
+      rewrite (aton_ntoa c0 c1 c2 c3 C0 C1 C2 C3). rewrite (py_int_dec n) by lia.
+      replace ((0 <=? n) && (n <=? 32)) with true
+        by (symmetry; apply andb_true_iff; split; apply Z.leb_le; lia).
+      rewrite Ma. f_equal. f_equal.
+      set (k := (2 ^ Z.to_N (32 - n))%N). assert (Hk : k <> 0%N) by (apply N.pow_nonzero; discriminate).
+      rewrite N.div_mul by exact Hk. reflexivity.
+  - destruct (inet_aton s) as [| |bs] eqn:Ea; try discriminate E.
+    destruct (inet_aton_shape s bs Ea) as [b0 [b1 [b2 [b3 [-> [H0 [H1 [H2 H3]]]]]]]].
+    inversion E; subst s'. apply ipv4_net_plain; assumption.
+Qed.
+
+(* a string that is not canonicalised at all keeps its text; one that is denotes a network *)
+Lemma ip4_canon_to_has_net : forall s s', ip_canon false s = CanonTo s' -> exists net, ipv4_net_of s = Some net.
+Proof.
+  intros s s' E. unfold ip_canon in E. unfold ipv4_net_of.
+  destruct (find_cp 47%N s) as [[ip suffix]|] eqn:Ef.
+  - destruct (inet_aton ip) as [| |bs] eqn:Ea; try discriminate E.
+    destruct (py_int suffix) as [n|] eqn:Ep; [|discriminate E].
+    destruct ((n <? 0) || (32 <? n)) eqn:Er; [discriminate E|].
+    apply orb_false_iff in Er. destruct Er as [Er1 Er2]. apply Z.ltb_ge in Er1. apply Z.ltb_ge in Er2.
+    replace ((0 <=? n) && (n <=? 32)) with true
+      by (symmetry; apply andb_true_iff; split; apply Z.leb_le; lia).
+    eexists. reflexivity.
+  - destruct (inet_aton s) as [| |bs] eqn:Ea; try discriminate E. eexists. reflexivity.
 Qed.
